@@ -24,7 +24,14 @@ func init() {
 
 // wireSource reports whether v is an integer read from the wire: the integer
 // result of a decoder call, or a load of Header.Size.
+// extraSources: values treated as wire integers while a callee is summarised
+// (its integer parameters, one at a time).
+var extraSources map[ssa.Value]bool
+
 func wireSource(d *decoderSet, sizeF *types.Var, v ssa.Value) bool {
+	if extraSources[v] {
+		return true
+	}
 	if in, ok := v.(ssa.Instruction); ok && sizeF != nil && in.Parent() != nil && !d.member[in.Parent()] {
 		sizeF = nil // Header.Size is a wire value only where the header was just decoded
 	}
@@ -65,6 +72,99 @@ type taintInfo struct {
 	src    ssa.Value
 	signed bool
 	arith  bool
+}
+
+// allocParams summarises, for the functions of the repository, which integer
+// parameters (receivers of integer kind included) size an allocation in the
+// callee without having been compared with a constant limit there: handing a
+// wire integer to such a parameter is an allocation sink at the call site.
+func allocParams(c *core.Ctx, d *decoderSet) map[*ssa.Function]map[int]bool {
+	out := map[*ssa.Function]map[int]bool{}
+	isInt := func(t types.Type) bool {
+		b, ok := t.Underlying().(*types.Basic)
+		return ok && b.Info()&types.IsInteger != 0
+	}
+	var cands []*ssa.Function
+	for _, fn := range c.RepoFuncs() {
+		if c.IsTestFile(fn) || len(fn.Blocks) == 0 || !notExample(fn) {
+			continue
+		}
+		for _, p := range fn.Params {
+			if isInt(p.Type()) {
+				cands = append(cands, fn)
+				break
+			}
+		}
+	}
+	for iter := 0; iter < 3; iter++ {
+		changed := false
+		for _, fn := range cands {
+			for i, p := range fn.Params {
+				if !isInt(p.Type()) || out[fn][i] {
+					continue
+				}
+				extraSources = map[ssa.Value]bool{p: true}
+				taint := computeTaint(fn, d, nil)
+				extraSources = nil
+				isP := func(v ssa.Value) bool {
+					v = core.StripConv(v)
+					ti, ok := taint[v]
+					return v == ssa.Value(p) || (ok && ti.src == ssa.Value(p) && !ti.arith)
+				}
+				hit := false
+				sink := func(in ssa.Instruction, v ssa.Value) {
+					if v == nil {
+						return
+					}
+					if _, ok := taint[core.StripConv(v)]; !ok && core.StripConv(v) != ssa.Value(p) {
+						return
+					}
+					if !core.Guarded(fn, in, core.AnyOf(core.UpperBound(isP, 0), boundedByExisting(isP))) {
+						hit = true
+					}
+				}
+				for _, b := range fn.Blocks {
+					for _, in := range b.Instrs {
+						switch x := in.(type) {
+						case *ssa.MakeSlice:
+							sink(in, x.Len)
+							sink(in, x.Cap)
+						case *ssa.MakeMap:
+							sink(in, x.Reserve)
+						case *ssa.MakeChan:
+							sink(in, x.Size)
+						case *ssa.Call:
+							f := x.Call.StaticCallee()
+							if f == nil {
+								continue
+							}
+							switch core.FuncKey(f) {
+							case "reflect.MakeSlice", "reflect.MakeMapWithSize", "bytes.Buffer.Grow":
+								sink(in, x.Call.Args[1])
+							default:
+								for j, a := range x.Call.Args {
+									if out[f][j] {
+										sink(in, a)
+									}
+								}
+							}
+						}
+					}
+				}
+				if hit {
+					if out[fn] == nil {
+						out[fn] = map[int]bool{}
+					}
+					out[fn][i] = true
+					changed = true
+				}
+			}
+		}
+		if !changed {
+			break
+		}
+	}
+	return out
 }
 
 // intSize is the size in bytes of int/uint/uintptr on the platform the
@@ -340,6 +440,8 @@ func runC07(c *core.Ctx) {
 	ruleNoPanicInDecoders(c, d)
 	c.Doc("C07.parsers", "parser node builders: parallel slices indexed together have checked equal lengths; unchecked assertions confined to today's sites", 3)
 	ruleParserShapes(c)
+	c.Doc("C07.backtracking", "no two alternatives of an ordered choice share a prefix containing a non-terminal (re-parsed per alternative at every nesting level: exponential time)", 2)
+	ruleBacktracking(c, "C07.backtracking")
 }
 
 // ruleNoPanicInDecoders: explicit panics reachable (VTA) from members of D.
@@ -538,6 +640,7 @@ func wireIntegerSinks(c *core.Ctx, d *decoderSet, ruleAlloc, ruleLoop string, ne
 	sizeF := c.Field("bus/net", "Header", "Size")
 	cs := &consume{d: d, memo: map[*ssa.Function]int{}}
 	nSinks, nLoops := 0, 0
+	allocP := allocParams(c, d)
 	for _, fn := range d.funcs {
 		if !notExample(fn) {
 			continue
@@ -627,6 +730,13 @@ func wireIntegerSinks(c *core.Ctx, d *decoderSet, ruleAlloc, ruleLoop string, ne
 						check(in, x.Call.Args[1], "reflect.Value.SetLen", true, &ord)
 					case "bytes.Buffer.Grow":
 						check(in, x.Call.Args[1], "Buffer.Grow", true, &ord)
+					default:
+						// a callee that sizes an allocation by this argument
+						for j, a := range x.Call.Args {
+							if allocP[f][j] {
+								check(in, a, "alloc-in:"+core.FuncKey(f), true, &ord)
+							}
+						}
 					}
 				}
 			}
@@ -697,4 +807,25 @@ func wireIntegerSinks(c *core.Ctx, d *decoderSet, ruleAlloc, ruleLoop string, ne
 		}
 	}
 	return nSinks, nLoops
+}
+
+// ruleBacktracking: grammar-level time bound of the signature and IDL parsers.
+func ruleBacktracking(c *core.Ctx, rule string) {
+	for _, rel := range []string{"meta/signature", "meta/idl"} {
+		p := c.Pkg(rel)
+		if p == nil {
+			c.Undecided(rule, rel, token.NoPos, "package not loaded")
+			continue
+		}
+		amb, n := choiceAmbiguities(p)
+		if n == 0 {
+			c.Undecided(rule, rel, token.NoPos, "no ordered choice found in the grammar")
+			continue
+		}
+		for _, a := range amb {
+			c.Fail(rule, "backtracking@"+rel+":"+strings.TrimPrefix(a.A, "&")+"|"+strings.TrimPrefix(a.B, "&"), a.Pos,
+				fmt.Sprintf("the alternatives %s and %s of one ordered choice both start with %s: when the first fails after that prefix the parser parses the prefix again for the second, at every nesting level, so parse time doubles with each level of nesting (a 41-byte signature of 20 nested tuples takes 22 s; the signature of a dynamic value arrives on the wire)", a.A, a.B, strings.Join(a.Prefix, " ")))
+		}
+		c.Pass(rule, rel+"/choices", token.NoPos, fmt.Sprintf("%d ordered choices analysed, %d ambiguous prefixes", n, len(amb)))
+	}
 }
